@@ -1159,6 +1159,19 @@ class HostileWorld(MediaBase):
             if again != pkt:
                 raise AssertionError("re-serialisation differs at byte %d" % next(
                     (i for i, (a, b) in enumerate(zip(again, pkt)) if a != b), min(len(again), len(pkt))))
+            c = chunks[0]
+            if isinstance(c, m.DataChunk):
+                # the same object changed and built again (as when a chunk is re-stamped): the packet carries the new
+                # field values, for every flag value and every payload length / padding case
+                c.flags = (c.flags ^ r.choice([1, 2, 4])) & 0xFF
+                c.stream_seq = (c.stream_seq + 1) & 0xFFFF
+                c.user_data = c.user_data + bytes(r.randrange(256) for _ in range(r.choice([0, 1, 2, 3])))
+                want = (c.flags, c.tsn, c.stream_id, c.stream_seq, c.protocol, bytes(c.user_data))
+                c2 = m.parse_packet(m.serialize_packet(sp, dp, vt, c))[3][0]
+                got = (c2.flags, c2.tsn, c2.stream_id, c2.stream_seq, c2.protocol, bytes(c2.user_data))
+                if got != want:
+                    raise AssertionError("a DATA chunk changed and built again parses back as %r, not %r" % (got[:5], want[:5]))
+                self.probes["chunks_changed_and_rebuilt"] += 1
         except Exception as exc:  # noqa
             self.violation("C08", "well-formed-packet-does-not-round-trip:chunk-type-%d:%s" % (pkt[12], type(exc).__name__),
                            "%s: %r" % (pkt.hex()[:120], exc))
